@@ -2,6 +2,7 @@
 """Regenerates /verif/MANIFEST.json from the tables below (kept by hand, one entry per property)."""
 import json, sys
 
+TECH_SCHED = "symbolic execution of the real go/ssa code (own SSA->SMT-LIB encoder) with exhaustive context-bounded enumeration of thread schedules at synchronisation points (CHESS-style); data branches and assertions over symbolic values decided by z3; schedule counterexamples confirmed by re-executing the recorded decision vector on the SSA of the current tree"
 TECH = "bounded symbolic execution of the real go/ssa code (own SSA->SMT-LIB encoder, bit-vector semantics) decided by z3; counterexamples replayed natively"
 
 CLAIMED = {
@@ -84,20 +85,24 @@ CLAIMED["C15"] = dict(
 CLAIMED["C10"] = dict(
    text="First half of the property (the task loop): schedule exploration over the REAL internal/taskloop code (no stub). The harness spawns concurrent submitters (one with a cancellable context), a canceller and a closer next to the loop goroutine; the scheduler switches threads only at synchronisation operations (channel send/receive/select with rendezvous semantics, close, mutex, Once, WaitGroup, atomics) and explores EVERY schedule with at most 2 preemptive context switches (free switches when a thread blocks). On every schedule: tasks never overlap, Run returns nil exactly when its task ran once to completion before the return and an error exactly when it never ran, no task starts after Close returned, the close callback runs once before Close returns, later submissions fail; a state where no thread can run is reported as deadlock.",
    note="Bounds: quick 1 submitter, thorough 2; context bound 2; switches at synchronisation granularity (sound for data-race-free code). NOT claimed: the second half (every public Agent/Conn method is race-free under concurrency) — that needs a memory-access-level race detector. Schedule-dependent counterexamples are replayed by re-executing the recorded decision vector on the real code's SSA (a native run cannot force a schedule); the harness also runs natively as a sanity check.",
-   ref="DESIGN.md §5 C10")
+   ref="DESIGN.md §5 C10", tech="sched")
 
 CLAIMED["C11"] = dict(
    text="Schedule exploration over the REAL handlerNotifier including the drainer goroutines it spawns (two producers, a handler that yields inside, all three callback streams, context bound 2): the handler never runs concurrently with itself, every event is delivered exactly once, a producer's events keep their order, GracefulClose returns only when no handler is running and nothing is invoked afterwards. A second harness explores GatherCandidates racing with Restart over the real task loop, gather goroutine and notifier: at most one nil candidate per cycle, exactly one for a completed cycle, none for a refused or cancelled one.",
    note="Bounds: 3 events, context bound 2 (3 thorough); gather-vs-restart: context bound 1 (2), first 5 (7) non-preemptive switch points nondeterministic. Switches at synchronisation operations only (sound for data-race-free code). Outside: handlers that re-enter the API, close the agent or block forever; longer bursts. Counterexamples are replayed by re-executing the schedule on the real code's SSA.",
-   ref="DESIGN.md §5 C11")
+   ref="DESIGN.md §5 C11", tech="sched")
 
 CLAIMED["C01"] = dict(
    text="Bounded two-agent model checking on the real code: a controlling and a controlled agent (bare Agent structs, real selectors, real stun.Build/Decode, real handleInbound and ContactCandidates) are joined by a harness network in which every emitted datagram stays in flight until the explorer delivers, drops or duplicates it. After an adversarial prefix of 3 (thorough 4) explorer-chosen steps from {tick A, tick B, deliver, drop, duplicate/reorder in either direction} a fair loss-free suffix of 6 rounds runs. For every prefix and reachability matrix: the selection invariant holds on both sides at every step, Connected is reported exactly while a pair is selected, an unreachable (or one-way) path never yields Connected or a selection, and with a path reachable both ways both agents end Connected on mirror-image pairs.",
    note="Bounds: quick 1 candidate per side, thorough 2 per side (4 pairs); prefix 3/4 steps, suffix 6 rounds ('eventually' = within the suffix); ticks call ContactCandidates directly (timer goroutine outside); transaction ids pairwise distinct; clock steps <= ~1 ms; integrity contract. Outside: srflx/NAT topologies, longer loss prefixes, Restart mid-session, real timers/sockets.",
    ref="DESIGN.md §5 C01")
 
+CLAIMED["C08"] = dict(
+   text="Bounded schedule exploration of Close/GracefulClose on an agent built by the REAL newAgentWithConfig (real task loop, on-close teardown closure, notifiers, Restart): Close is injected at explored moments of one concurrently running operation per scenario — five API calls, a reader parked in Conn.Read, a Dial parked in AwaitConnect with the candidate's receive loop parked in a socket read, a connectivity check whose socket write blocks for ever, an inbound Binding request, a gathering cycle, Close from inside the state callback, three concurrent closers. On every explored schedule: no deadlock (everything returns), blocked calls fail, racing calls return nil or a refusal, repeated Close/GracefulClose return nil, later API calls report the closed error without effect, the last notified state is Closed (once), candidates are dropped and their sockets closed, nothing is opened after Close returned, and when no thread can run any more every goroutine the agent started has ended.",
+   note="Bounds: Close after 0..3 (thorough 0..7) fair hand-overs plus all schedules with <= 1 (2) preemptions at synchronisation points, first 3 (6) free switches fully explored; one host candidate on a blocking fake socket, one remote, one interface; timers never fire. 'Bounded time' is not measured: termination = no explored schedule leaves a thread that can never run. Switches at synchronisation granularity (sound for data-race-free code). Outside: mDNS, TCP/srflx/relay candidates and muxes at Close, GracefulClose inside a callback (documented unsafe), several concurrent operations, deeper bounds. Counterexamples are replayed by re-executing the schedule on the real code's SSA; the goroutine census is engine-only.",
+   ref="DESIGN.md §5 C08", tech="sched")
+
 NOT_APPLICABLE = {
- "C08": "teardown of a complete live agent (timer goroutine, receive loops, gatherers, mux workers, blocked socket I/O) from any point, in bounded wall-clock time: beyond a context-bounded schedule explorer over a handful of threads; the task loop's own Close is covered by C10",
 }
 
 NOT_BUILT = {
@@ -116,7 +121,7 @@ def main():
           "engine": "verif-symex",
           "level_claimed": {"category":"model_checking","text":c["text"],"design_ref":c["ref"]},
           "level_note": c["note"],
-          "technique": TECH,
+          "technique": TECH_SCHED if c.get("tech")=="sched" else TECH,
         })
     na=[{"property_id":k,"reason":v} for k,v in sorted({**NOT_APPLICABLE, **NOT_BUILT}.items()) if k not in CLAIMED]
     m={
